@@ -310,20 +310,20 @@ def _work(args):
                     cfg['file'] = payload
                     with open(path, 'w') as out:
                         out.write(render(payload, rng, final_newline=rng.random() < 0.7))
-                    ev = file_events(path, workdir, False)
+                    ev = common.guarded(file_events, 180, path, workdir, False)
                 elif kind == 'generic':
                     rng = random.Random(payload)
                     cfg['file'] = random_generic_file(rng)
                     with open(path, 'w') as out:
                         out.write(render(cfg['file'], rng, final_newline=rng.random() < 0.7))
-                    ev = file_events(path, workdir, False)
+                    ev = common.guarded(file_events, 180, path, workdir, False)
                 elif kind == 'topo':
                     rng = random.Random(payload)
                     f, n, bonds = random_topology(rng, rng.randint(1, 40), rng.choice(['tree', 'cyclic', 'forest']))
                     cfg['file'] = f
                     with open(path, 'w') as out:
                         out.write(render(f, rng, final_newline=rng.random() < 0.8))
-                    ev = file_events(path, workdir, True)
+                    ev = common.guarded(file_events, 180, path, workdir, True)
                 elif kind == 'graph':
                     rng = random.Random(payload)
                     n = rng.choice([rng.randint(1, 300), rng.randint(900, 3000)])
